@@ -86,6 +86,96 @@ def _verbatim(ck, fx):
             ck.ob("R6.verbatim", key, why is None, "", "one %s::%s call; its result is returned as it is" % (crate, fn) if why is None else why + " — text inside string literals of the AST can change between stages")
 
 
+def _select(ck, fx):
+    """Format selection is pure Option logic: it is decided by executing both selectors symbolically for each case of
+    the explicit flag (and of -o), with selected_input / extension / from_extension kept as opaque calls."""
+    from ..symex import Executor, Client, State
+
+    class C(Client):
+        name = "select"
+        inline_depth = 6
+
+        def no_inline(self, path):
+            return path.endswith(("::selected_input", "NamedSource::extension", "ASTSerializer::from_extension"))
+
+    def mentions(t, sub):
+        if t == sub:
+            return True
+        if isinstance(t, tuple):
+            return any(mentions(x, sub) for x in t if isinstance(x, tuple))
+        return False
+
+    def strip(t):
+        while isinstance(t, tuple) and t and t[0] in ("payload", "some", "ok") and len(t) == 2:
+            t = t[1]
+        return t
+
+    def outcomes(path, adt, over):
+        a = fx.adts.get(adt)
+        b = fx.body(path)
+        if a is None or b is None:
+            return None
+        fields = [f["name"] for f in a["variants"][0]["fields"]]
+        self_t = ("ctor", adt, None, tuple((f, over.get(f, ("var", "self." + f))) for f in fields))
+        ex = Executor(fx, C())
+        return [(s_, o) for s_, o in ex.run_body(b, [self_t], State()) if o[0] == "val"]
+
+    def from_ext_call(s_, res):
+        for e in s_.eff:
+            if e["k"] == "call" and e["args"][0][1].endswith("ASTSerializer::from_extension") and e.get("res") == strip(res):
+                return e
+        return None
+
+    def derives(s_, term, origin_pred):
+        """term is computed (through calls recorded on the path) from a call satisfying origin_pred"""
+        seen = set()
+        work = [term]
+        while work:
+            t = work.pop()
+            for e in s_.eff:
+                if e["k"] == "call" and e.get("res") is not None and mentions(t, e["res"]) and id(e) not in seen:
+                    seen.add(id(e))
+                    if origin_pred(e):
+                        return True
+                    work.extend(e["args"][1:])
+        return False
+
+    INTERNAL = ("ctor", "ASTSerializer", "INTERNAL", ())
+    # ---- compile: --input-format, else the extension of the input
+    pc = A.get("cli.compile.informat")
+    try:
+        some = outcomes(pc, "CompilerAction", {"input_format": ("some", ("var", "F"))})
+        none = outcomes(pc, "CompilerAction", {"input_format": ("none",)})
+    except Exception as e:  # noqa
+        some = none = None
+    if ck.anchor("R6.select", "CompilerAction::selected_input_format", some):
+        ok_flag = bool(some) and all(strip(o[1]) == ("var", "F") for _, o in some)
+        via = [(s_, o) for s_, o in none if from_ext_call(s_, o[1]) is not None]
+        ok_ext = bool(via) and all(derives(s_, from_ext_call(s_, o[1])["args"][1], lambda e: e["args"][0][1].endswith("NamedSource::extension") and derives(
+            s_, e["args"][1], lambda e2: e2["args"][0][1].endswith("::selected_input"))) for s_, o in via)
+        rest = [o for s_, o in none if from_ext_call(s_, o[1]) is None and o[1] != ("none",)]
+        ck.ob("R6.select", "compile: --input-format, else extension of the input", ok_flag and ok_ext and not rest, loc(fx.body(pc)),
+              "explicit flag wins: %s; otherwise from_extension(extension of the selected input) or nothing: %s%s" % (ok_flag, ok_ext, "" if not rest else "; other results: %d" % len(rest)))
+    # ---- parse: --format, else the extension of -o, else INTERNAL
+    pp = A.get("cli.parse.format")
+    try:
+        some = outcomes(pp, "ParserAction", {"format": ("some", ("var", "F"))})
+        nn = outcomes(pp, "ParserAction", {"format": ("none",), "output": ("none",)})
+        ns = outcomes(pp, "ParserAction", {"format": ("none",), "output": ("some", ("var", "P"))})
+    except Exception as e:  # noqa
+        some = nn = ns = None
+    if ck.anchor("R6.select", "ParserAction::selected_output_format", some):
+        ok_flag = bool(some) and all(strip(o[1]) == ("var", "F") for _, o in some)
+        ok_dflt = bool(nn) and all(o[1] == INTERNAL for _, o in nn)
+        via = [(s_, o) for s_, o in ns if from_ext_call(s_, o[1]) is not None]
+        ok_ext = bool(via) and all(derives(s_, from_ext_call(s_, o[1])["args"][1], lambda e: e["args"][0][1].endswith("::extension") and mentions(e["args"][1], ("var", "P")))
+                                   for s_, o in via)
+        rest = [o for s_, o in ns if from_ext_call(s_, o[1]) is None and o[1] != INTERNAL]
+        ck.ob("R6.select", "parse: --format, else extension of -o, else INTERNAL", ok_flag and ok_dflt and ok_ext and not rest, loc(fx.body(pp)),
+              "explicit flag first: %s; no flag and no -o gives INTERNAL: %s; otherwise from_extension(extension of -o), INTERNAL when it has none: %s%s" % (
+                  ok_flag, ok_dflt, ok_ext, "" if not rest else "; other results: %d" % len(rest)))
+
+
 def run(ck, fx, cg, tier):
     ck.explanation = (
         "Partial by design. Decided structurally: the AST types derive both serde directions with no asymmetric or "
@@ -153,38 +243,7 @@ def run(ck, fx, cg, tier):
         lower = any(n.get("k") == "MethodCall" and n["name"] == "to_lowercase" for n, ps in walk_body(nb))
         ck.ob("R6.tables", "format names = S7", got == S7_NAMES and lower, loc(nb), "names %s, case-insensitive: %s; S7 %s" % (got, lower, S7_NAMES))
     # ---------------------------------------------------------------- selection
-    pb = fx.body(A.get("cli.parse.format"))
-    if ck.anchor("R6.select", "ParserAction::selected_output_format", pb):
-        v = peel(pb["value"])
-        if v.get("k") == "Block" and "expr" in v["block"] and not v["block"]["stmts"]:
-            v = peel(v["block"]["expr"])
-        ok = v.get("k") == "MethodCall" and v["name"] == "unwrap_or_else" and peel(v["recv"]).get("k") == "Field" and peel(v["recv"])["name"] == "format"
-        inner_ok = False
-        if ok:
-            clo = peel(v["args"][0])
-            calls = [x for x, _ in walk(clo) if x.get("k") in ("Call", "MethodCall")]
-            uses_output = any(x.get("k") == "Field" and x["name"] == "output" for x, _ in walk(clo))
-            from_ext = any(callee_name(x) == A.get("cli.ast.from_extension") for x in calls)
-            dflt = [x for x in calls if x.get("k") == "MethodCall" and x["name"] == "unwrap_or" and peel(x["args"][0]).get("k") == "Path" and peel(x["args"][0])["res"].get("variant") == "INTERNAL"]
-            inner_ok = uses_output and from_ext and bool(dflt)
-        ck.ob("R6.select", "parse: --format, else extension of -o, else INTERNAL", ok and inner_ok, loc(pb),
-              "explicit flag first: %s; fallback uses the output path's extension through from_extension and defaults to INTERNAL: %s" % (ok, inner_ok))
-    cb = fx.body(A.get("cli.compile.informat"))
-    if ck.anchor("R6.select", "CompilerAction::selected_input_format", cb):
-        ifs = [n for n, ps in walk_body(cb) if n.get("k") == "If"]
-        ok = False
-        if ifs:
-            i0 = ifs[0]
-            c = peel(i0["cond"])
-            cond_ok = c.get("k") == "MethodCall" and c["name"] == "is_some" and peel(c["recv"]).get("k") == "Field" and peel(c["recv"])["name"] == "input_format"
-            then_v = peel(i0["then"])
-            if then_v.get("k") == "Block" and "expr" in then_v["block"]:
-                then_v = peel(then_v["block"]["expr"])
-            then_ok = then_v.get("k") == "Field" and then_v["name"] == "input_format"
-            else_ok = "else" in i0 and any(callee_name(x) == A.get("cli.ast.from_extension") for x, _ in walk(i0["else"]) if x.get("k") in ("Call", "MethodCall")) and any(
-                x.get("k") == "MethodCall" and x["name"] == "extension" for x, _ in walk(i0["else"]))
-            ok = cond_ok and then_ok and else_ok
-        ck.ob("R6.select", "compile: --input-format, else extension of the input", ok, loc(cb), "explicit flag wins; otherwise from_extension(input extension): %s" % ok)
+    _select(ck, fx)
     # ---------------------------------------------------------------- same compile
     comp = cg.dids_of(A.get("compile.pub"))
     if ck.anchor("R6.samecompile", "bytecode::compile", comp or None):
